@@ -11,7 +11,10 @@ import (
 	"encoding/hex"
 	"encoding/json"
 	"fmt"
+	"sync"
 	"time"
+
+	"github.com/mholt/caddy-l4/layer4"
 
 	"verif/mc/enum"
 	"verif/mc/explore"
@@ -60,6 +63,24 @@ func judgeStream(l *mrun.Loaded, s []byte, fail func(sig, msg string)) (evals in
 		if !bytes.Equal(cx.MatchingBytes(), before) {
 			fail("changes-stream:"+l.Spec.Module, fmt.Sprintf("after a second evaluation by %s the connection replays %x instead of %x", l.Spec, cx.MatchingBytes(), s[:i]))
 		}
+		// the same matcher inside an AND-set next to a 'not' matcher that is true for this
+		// connection (not remote_ip <another network>), in both orders: same verdict, still pure
+		if nm := notMatcher(); nm != nil {
+			for _, set := range []layer4.MatcherSet{{nm, l.M}, {l.M, nm}} {
+				reads = sc.Reads
+				sv := (&mrun.Loaded{Spec: l.Spec, M: andSet(set)}).Eval(cx)
+				evals++
+				if cls(sv) != verdicts[i] {
+					fail("verdict-differs-inside-a-set:"+l.Spec.Module, fmt.Sprintf("%s says %s alone but %s when AND'ed with a true 'not' matcher, on prefix %d of %x", l.Spec, v, sv, i, s))
+				}
+				if sc.Reads != reads {
+					fail("reads-network:"+l.Spec.Module, fmt.Sprintf("%s AND'ed with a 'not' matcher read from the network %d time(s) while matching prefix %d of %x", l.Spec, sc.Reads-reads, i, s))
+				}
+				if !bytes.Equal(cx.MatchingBytes(), before) {
+					fail("changes-stream:"+l.Spec.Module, fmt.Sprintf("after %s AND'ed with a 'not' matcher evaluated prefix %d of %x the connection replays %x", l.Spec, i, s, cx.MatchingBytes()))
+				}
+			}
+		}
 	}
 	for i := 0; i < n; i++ {
 		if verdicts[i] == "no" {
@@ -81,6 +102,23 @@ func judgeStream(l *mrun.Loaded, s []byte, fail func(sig, msg string)) (evals in
 		}
 	}
 	return evals, verdicts[n]
+}
+
+// andSet makes a matcher set usable where a single matcher is expected.
+type andSet layer4.MatcherSet
+
+func (a andSet) Match(cx *layer4.Connection) (bool, error) { return layer4.MatcherSet(a).Match(cx) }
+
+var notM layer4.ConnMatcher
+var notOnce sync.Once
+
+func notMatcher() layer4.ConnMatcher {
+	notOnce.Do(func() {
+		if l, err := mrun.Load(mrun.Spec{Module: "not", Config: json.RawMessage(`[{"remote_ip":{"ranges":["203.0.113.0/24"]}}]`)}); err == nil {
+			notM = l.M
+		}
+	})
+	return notM
 }
 
 func streamOriented(sp mrun.Spec) bool {
@@ -132,7 +170,7 @@ func main() {
 	runner.Main(&runner.Harness{
 		ID:    "C06",
 		Level: "model_checking",
-		Rule:  "every stream-oriented matcher configuration (tls, http, ssh, xmpp, postgres, proxy_protocol, socks4, socks5, regexp, rdp, dns/TCP, openvpn/TCP, winbox; default + filtered) x every message of its corpus (test vectors, hand-written messages, protocol generators) with trailing data {none, 00, LF, the message again} and single-position substitutions (messages <=64 bytes; all in thorough) x EVERY prefix length; each prefix is loaded by the real prefetch and judged twice by the real Match under freeze/unfreeze; states = distinct (configuration, prefix) pairs",
+		Rule:  "every stream-oriented matcher configuration (tls, http, ssh, xmpp, postgres, proxy_protocol, socks4, socks5, regexp, rdp, dns/TCP, openvpn/TCP, winbox; default + filtered) x every message of its corpus (test vectors, hand-written messages, protocol generators) with trailing data {none, 00, LF, the message again} and single-position substitutions (messages <=64 bytes; all in thorough) x EVERY prefix length; each prefix is loaded by the real prefetch and judged twice by the real Match under freeze/unfreeze, and again inside an AND-set next to a true 'not' matcher in both orders; states = distinct (configuration, prefix) pairs",
 		Assumptions: []string{
 			"an error verdict counts as a rejection (the router aborts the connection)",
 			"yes on a prefix followed by no on a longer prefix is allowed by the property text and not checked",
